@@ -169,3 +169,64 @@ def no_regular_file_named_files(sc, v):
         if t.get('k', 'file') == 'file' and os.path.basename(t.get('p', '')) == 'files':
             return False
     return True
+
+
+def unlinked_manifests_lie_in_hidden_directories(sc, v):
+    """KF-D10-UNLINKED is pinned to its cause: every Manifest the assertion names lies inside a hidden directory (created there
+    by an explicit update, never referenced because the walk of the directory above skips dot-directories).  The same assertion
+    tripping over a Manifest in a visible directory is a different defect and is reported."""
+    import re
+    m = re.search(r"Unlinked but updated Manifests: \{(.*?)\}", v.get('detail', ''))
+    if not m:
+        return False
+    paths = re.findall(r"'((?:[^'\\]|\\.)*)'", m.group(1))
+    if not paths:
+        return False
+    return all(any(c.startswith('.') for c in p_.split('/')[:-1]) for p_ in paths)
+
+
+CYCLE_KINDS = ('manifest-cycle', 'manifest-cycle-3', 'manifest-back-ref', 'manifest-self')
+
+
+def needs_a_manifest_reference_cycle(sc, v):
+    """KF-CYCLE-UNLINKED is causal: the scenario damages a Manifest so that Manifests of one directory reference each other
+    in a cycle, and the same scenario WITHOUT that damage no longer trips the assertion."""
+    import copy
+    import importlib
+    dmg = sc.get('damage')
+    if not isinstance(dmg, list) or not any(d_.get('kind') in CYCLE_KINDS for d_ in dmg):
+        return False
+    sc2 = copy.deepcopy(sc)
+    sc2['damage'] = [d_ for d_ in dmg if d_.get('kind') not in CYCLE_KINDS]
+    mod = importlib.import_module('sim.props.' + sc.get('prop', 'C18').lower())
+    res = mod.execute(sc2)
+    return not any(x.get('sig') == v.get('sig') for x in res.get('violations', []))
+
+
+def unlinked_manifests_are_wellformed(sc, v):
+    """KF-D10-UNLINKED covers WELL-FORMED Manifest files that end up queued while nothing references them (inside a hidden
+    directory, beneath an IGNORE held by another Manifest, written by gemato itself earlier in the history).  If a file the
+    assertion names was put there by the scenario with bytes that do NOT parse as a Manifest (junk, a half-valid look-alike),
+    the updater took a non-Manifest for a Manifest: a different defect, reported."""
+    import re
+    from sim import grammar as G
+    from sim.world import content_bytes
+    m = re.search(r"Unlinked but updated Manifests: \{(.*?)\}", v.get('detail', ''))
+    if not m:
+        return False
+    paths = [eval("'" + x + "'") for x in re.findall(r"'((?:[^'\\]|\\.)*)'", m.group(1))]
+    if not paths:
+        return False
+    specs = list(sc.get('tree', [])) + list(sc.get('odd', [])) + list(sc.get('late_odd', []))
+    for r in sc.get('rounds', []):
+        specs += [e for e in r.get('edits', []) if e.get('m') in ('add', 'rewrite', 'put')]
+    specs += [e for e in (sc.get('edits') if isinstance(sc.get('edits'), list) else []) if e.get('m') in ('add', 'rewrite', 'put')]
+    specs += [e for e in (sc.get('muts') if isinstance(sc.get('muts'), list) else []) if e.get('m') in ('add', 'rewrite', 'put')]
+    for p_ in paths:
+        for t in specs:
+            if t.get('p') == p_ and t.get('k', 'file') == 'file':
+                try:
+                    G.parse(G.decompress(content_bytes(t), G.comp_of(p_)).decode('utf8'))
+                except Exception:
+                    return False
+    return True
